@@ -508,3 +508,75 @@ func TestC13_LongPeriods(t *testing.T) {
 		}, "long_period")
 	})
 }
+
+// TestC13_SlowListScale: "for every combination of refresh period and list
+// latency": latencies on a logarithmic scale up to half a minute (one per
+// shard, real time).  The second list takes that long (the client honours its
+// context); once it has returned, relisting must go on - two further lists -
+// and Close() must still be prompt.  A bound on how long a single list may
+// take that is not re-armed afterwards shows here.
+func TestC13_SlowListScale(t *testing.T) {
+	lats := []time.Duration{300 * time.Millisecond, time.Second, 3 * time.Second, 10 * time.Second, 33 * time.Second}
+	shard, nshards := shardOf()
+	for i, L := range lats {
+		if i%nshards != shard || i >= envInt("VERIF_SLOWLIST_N", len(lats)) {
+			continue
+		}
+		P := 150 * time.Millisecond
+		a := newFakeAPI()
+		a.put("a", "p", nil)
+		a.listLatency = func(k int) time.Duration {
+			if k == 2 {
+				return L
+			}
+			return 0
+		}
+		ctx, cancel := context.WithCancel(context.Background())
+		b := kcache.NewBuilder().Context(ctx).Log(newPlog(false, 1)).Client(a)
+		b.Lister().RefreshPeriod(P)
+		root, err := b.Create()
+		if err != nil {
+			t.Fatalf("create: %v", err)
+		}
+		returned := func() int {
+			a.mu.Lock()
+			defer a.mu.Unlock()
+			n := 0
+			for _, c := range a.listCalls {
+				if c.returned && !c.cancelled {
+					n++
+				}
+			}
+			return n
+		}
+		deadline := time.Now().Add(L + 20*P + wedgeBoundNow())
+		for returned() < 4 {
+			if isClosedCh(root.Done()) {
+				cancel()
+				t.Fatalf("C13 violation: list latency %v (period %v): the controller shut down: %v", L, P, root.Error())
+			}
+			if time.Now().After(deadline) {
+				a.mu.Lock()
+				calls := len(a.listCalls)
+				a.mu.Unlock()
+				rerr := root.Error()
+				cancel()
+				go root.Close()
+				writeEnumReplay(t, "C13", "TestC13_SlowListScale", fmt.Sprintf("latency %v", L), "relisting stopped")
+				t.Fatalf("C13 violation: WEDGE: period %v, the second list took %v: only %d List calls returned (%d issued) within %v: relisting stopped after the slow list although the controller is running (Error() = %v)", P, L, returned(), calls, L+20*P+wedgeBoundNow(), rerr)
+			}
+			time.Sleep(P / 2)
+		}
+		if !closeBounded(root) {
+			cancel()
+			t.Fatalf("C13 violation: WEDGE: Close() did not return (list latency %v)", L)
+		}
+		cancel()
+		if n, dump := waitNoLibGoroutines(wedgeBound); n != 0 {
+			t.Fatalf("C13 violation: %d library goroutines left after Close:\n%s", n, dump)
+		}
+		statCase("C13", hashString(fmt.Sprintf("slowscale %v", L)), true, func() interface{} {
+			return map[string]interface{}{"mode": "one very slow list, then relisting continues", "period": P.String(), "list_latency": L.String()}
+		}, "slow_list_scale")
+	}
+}
